@@ -1,7 +1,7 @@
 """Helpers shared by rule modules: role discovery for the batch processors / periodic reader,
 comparison normalisation, small idiom recognisers."""
 from ..ir import AnalysisBroken, strip_targs, qmatch
-from ..expr import access_path, path_str, leaves, norm_cond, is_transparent_call
+from ..expr import access_path, path_str, leaves, norm_cond, is_transparent_call, defs_in_node
 from ..callgraph import CallGraph
 
 EXPORTER_EXPORT = ('SpanExporter::Export', 'LogRecordExporter::Export', 'PushMetricExporter::Export')
@@ -602,3 +602,19 @@ def after_result(g, call_pred, value, must_hit, target=None):
             if path is not None:
                 return False, [p] + path, n
     return n > 0, None, n
+
+
+def once_init(f, idx):
+    """the initialiser of a local that is initialised once and never written again (casts stripped), else the node itself"""
+    for _ in range(4):
+        n = strip_casts(f, idx)
+        if n['k'] == 'ref' and n.get('sk') == 'local':
+            decls = [d for m in f.nodes if m['k'] == 'declstmt' for d in m['decls'] if d['id'] == n['id']]
+            inits = [d['init'] for d in decls if d.get('init') is not None and d['init'] >= 0]
+            is_reference = any(d['t'].rstrip().endswith('&') for d in decls)   # a reference is never re-bound: "writes" go to the referent
+            writes = [] if is_reference else [m for m in f.nodes for (v, s_, vx) in defs_in_node(f, m) if v == n['id'] and m['k'] != 'declstmt']
+            if len(inits) == 1 and not writes:
+                idx = inits[0]
+                continue
+        return n
+    return strip_casts(f, idx)
